@@ -44,7 +44,7 @@ def cases(draw, tier):
     shape = draw(st.sampled_from([None, None, [1, 1], [1, 3], [3, 1], [2, 2]]))
     return {"spec": spec, "other": other, "text": txt, "delim": draw(st.sampled_from(DELIMS)), "shape": shape, "explicit_str": draw(st.booleans()),
             "coll": draw(st.sampled_from(["list", "dict"])), "cname": draw(st.sampled_from(["", "c", "my_set"])),
-            "encoding": draw(st.sampled_from([None, None, "utf-8", "latin-1"])), "default_delim": draw(st.integers(0, 5)) == 0}
+            "encoding": draw(st.sampled_from([None, None, "utf-8", "latin-1"])), "awkward": draw(st.integers(0, 3)) == 0, "default_delim": draw(st.integers(0, 5)) == 0}
 
 
 def strategy(tier):
@@ -76,6 +76,8 @@ def run_case(case, ctx):
 
 def _run(case, ctx, tmp):
     H = nets.build(case["spec"])
+    if case.get("awkward"):
+        nets.awkward_attr_names(H)
     O = nets.build(case["other"])
     cls = case["spec"]["cls"]
     ctx.event("class:" + cls)
